@@ -7,5 +7,5 @@ import "verif/harness/rpckit"
 
 func main() {
 	rpckit.Main(rpckit.Focus{Comp: "rpc", Kind: "wf"},
-		"three real servers with the same registrations (Streamable HTTP: stateful with JSON answers, stateful with SSE answers, stateless, sessions disabled; legacy SSE with a raw stream peer; stdio transport loop on pipes); every valid request of every method with every handler outcome (result, isError, Go error, unencodable, nil slices) and a spread of ids, then each envelope member and each parameter member the managers read removed / retyped to each of 7 JSON kinds / duplicated / re-spelled, whole-body retypes, notifications, responses to never-sent requests, truncated and random bytes, numbers float64 cannot hold, deep and large values, verb x path x session x Accept x body products; repeated life-cycle messages, 2 MiB and ~5 MiB inputs; finally 128-256 pipelined requests (stdio: one write, slow reader; Streamable HTTP and legacy SSE: concurrent POSTs) judged without the model (every line one well-formed object, answered ids = request ids as multisets, each answer its own request's); every exchange is one model line (status, body, frames), every captured message additionally one wfMsg line; non-trivial = the server emitted a message or refused with a status >= 400")
+		"three real servers with the same registrations (Streamable HTTP: stateful with JSON answers, stateful with SSE answers, stateless, sessions disabled; legacy SSE with a raw stream peer; stdio transport loop on pipes); every valid request of every method with every handler outcome (result, isError, Go error, unencodable, nil slices) and a spread of ids, then each envelope member and each parameter member the managers read removed / retyped to each of 7 JSON kinds / duplicated / re-spelled, whole-body retypes, notifications, responses to never-sent requests, truncated and random bytes, numbers float64 cannot hold, deep and large values, verb x path x session x Accept x body products; repeated life-cycle messages, 2 MiB and ~5 MiB inputs; request headers from their grammars (Accept with every parameter shape, Content-Type, Mcp-Session-Id, Last-Event-ID) with bodies of every kind, the Accept header being an input of the model (framing predicted per answered request); servers configured with list filters (hide all: nil / empty slice, hide some, keyed on a context value); results and notifications of 40 KiB - 1 MiB with comma-rich texts on every path incl. the GET stream (model-free: one JSON value, schema, text unchanged); finally 128-256 pipelined requests (stdio: one write, slow reader; Streamable HTTP and legacy SSE: concurrent POSTs) judged without the model (every line one well-formed object, answered ids = request ids as multisets, each answer its own request's); every exchange is one model line (status, body, frames), every captured message additionally one wfMsg line; non-trivial = the server emitted a message or refused with a status >= 400")
 }
